@@ -44,6 +44,53 @@ def apply_edits(root: str, edits: list[tuple[str, str, str]]) -> dict[str, str] 
     return out
 
 
+def patch_overrides(root: str, patch: str) -> dict[str, str] | None:
+    """Apply a unified diff to a scratch copy of the package sources (under the system temp dir, removed at once) and
+    return the changed files as in-memory overrides; None when the patch no longer applies."""
+    import shutil
+    import subprocess
+    import tempfile
+
+    tmp = tempfile.mkdtemp(prefix="verif-patch-")
+    try:
+        shutil.copytree(os.path.join(root, "fuzzylite"), os.path.join(tmp, "fuzzylite"), ignore=shutil.ignore_patterns("examples", "__pycache__", "*.fld", "*.fll"))
+        r = subprocess.run(["git", "apply", "--whitespace=nowarn", os.path.abspath(patch)], cwd=tmp, capture_output=True, text=True)
+        if r.returncode != 0:
+            return None
+        out = {}
+        for name in os.listdir(os.path.join(tmp, "fuzzylite")):
+            if name.endswith(".py"):
+                with open(os.path.join(tmp, "fuzzylite", name), encoding="utf-8") as f:
+                    new = f.read()
+                with open(os.path.join(root, "fuzzylite", name), encoding="utf-8") as f:
+                    old = f.read()
+                if new != old:
+                    out[f"fuzzylite/{name}"] = new
+        return out
+    finally:
+        shutil.rmtree(tmp, ignore_errors=True)
+
+
+def patch_registry() -> list[dict[str, Any]]:
+    """Behaviour-preserving variants (selftest/equivalents/*.diff) and confirmed seeded changes (seeded/*/patch.diff)."""
+    import glob
+    import json
+
+    out: list[dict[str, Any]] = []
+    for f in sorted(glob.glob(os.path.join(VERIF, "selftest", "equivalents", "*.diff"))):
+        out.append({"id": "eqv-" + os.path.basename(f)[:-5], "props": None, "patch": f, "kind": "equivalent", "expect": ""})
+    for d in sorted(glob.glob(os.path.join(VERIF, "seeded", "*"))):
+        meta = os.path.join(d, "meta.json")
+        if not os.path.exists(meta):
+            continue
+        with open(meta, encoding="utf-8") as fh:
+            m = json.load(fh)
+        caught = m.get("caught_by")
+        if caught:
+            out.append({"id": "seed-" + os.path.basename(d), "props": caught, "patch": os.path.join(d, "patch.diff"), "kind": "mutant", "expect": ""})
+    return out
+
+
 def violations_of(prop: str, root: str, overrides: dict[str, str] | None) -> tuple[set[str], str | None]:
     from .cli import run_property
 
@@ -56,7 +103,7 @@ def violations_of(prop: str, root: str, overrides: dict[str, str] | None) -> tup
 
 def _one(args: tuple[str, str, dict[str, Any], list[str]]) -> dict[str, Any]:
     prop, root, m, baseline = args
-    ov = apply_edits(root, m["edits"])
+    ov = patch_overrides(root, m["patch"]) if "patch" in m else apply_edits(root, m["edits"])
     if ov is None:
         return {"id": m["id"], "result": "skipped", "why": "anchor text no longer applies"}
     try:
@@ -81,6 +128,7 @@ def _one(args: tuple[str, str, dict[str, Any], list[str]]) -> dict[str, Any]:
 
 def run_for(prop: str, root: str, jobs: int | None = None) -> dict[str, Any]:
     reg = [m for m in load_registry() if prop in m["props"]]
+    reg += [m for m in patch_registry() if m["props"] is None or prop in m["props"]]
     baseline, err = violations_of(prop, root, None)
     if err:
         raise AnalysisError(f"self-test baseline failed: {err}")
